@@ -212,8 +212,7 @@ def run(ctx: Ctx) -> None:
         ctx.cov["block_loops_replayed"] = len(loops)
         # tie of the modelled block sub-parser (mini_total is a theorem about exactly this model)
         from . import miniblock
-        miniblock.tie(ctx, drv, 2500 if quick else 60000)
-        miniblock.tie_quote(ctx, drv, 3000 if quick else 80000)
+        miniblock.tie_all(ctx, drv, quick)
     finally:
         drv.close()
     ctx.partial += [
